@@ -38,6 +38,8 @@ pub enum FrameSpec {
     /// a frame that announces more bytes than its header's kind has: (type, request id, fourth byte, extra 4-byte words).
     /// With (3, 0, 0, k) it *starts* like a keep-alive, but is a k+1 word frame: only the size byte says where it ends.
     Long(u8, u8, u8, u8),
+    /// IS_VER with one of several version / product texts (short ones, and ones that fill their field completely)
+    VerText(u8, u8),
 }
 
 pub fn size_byte(mode: &Mode, len: usize) -> u8 {
@@ -109,6 +111,20 @@ pub fn frame_bytes(f: &FrameSpec, mode: &Mode) -> Vec<u8> {
             }
             v
         },
+        FrameSpec::VerText(v, sel) => {
+            const VERSIONS: [&[u8]; 6] = [b"0.7F", b"0.7E15", b"0.7E1234", b"0.04K123", b"0.6U2", b"1.23456Z"];
+            const PRODUCTS: [&[u8]; 4] = [b"S3", b"DEMO", b"FULL99", b"S2"];
+            let mut f = vec![size_byte(mode, 20), 2, 1, 0];
+            let mut t = VERSIONS[*sel as usize % 6].to_vec();
+            t.resize(8, 0);
+            f.extend_from_slice(&t);
+            let mut p = PRODUCTS[(*sel as usize / 6) % 4].to_vec();
+            p.resize(6, 0);
+            f.extend_from_slice(&p);
+            f.push(*v);
+            f.push(0);
+            f
+        },
         FrameSpec::VerLong(v, extra) => {
             let mut f = frame_bytes(&FrameSpec::Ver(*v), mode);
             let words = 1 + (*extra as usize % 3);
@@ -146,7 +162,7 @@ pub fn frame_strategy(keepalive_weight: u32, ver_weight: u32) -> impl Strategy<V
         2 => any::<u8>().prop_map(FrameSpec::BadEnum),
         keepalive_weight => Just(FrameSpec::KeepAlive),
         3 => (any::<u8>(), prop_oneof![Just(0u8), any::<u8>()]).prop_map(|(a, b)| FrameSpec::Tiny(a, b)),
-        ver_weight => prop_oneof![3 => prop_oneof![Just(9u8), any::<u8>()].prop_map(FrameSpec::Ver), 1 => (prop_oneof![Just(9u8), any::<u8>()], any::<u8>()).prop_map(|(v, e)| FrameSpec::VerLong(v, e))],
+        ver_weight => prop_oneof![3 => prop_oneof![Just(9u8), any::<u8>()].prop_map(FrameSpec::Ver), 1 => (prop_oneof![Just(9u8), any::<u8>()], any::<u8>()).prop_map(|(v, e)| FrameSpec::VerLong(v, e)), 2 => (prop_oneof![Just(9u8), any::<u8>()], 0u8..24).prop_map(|(v, s)| FrameSpec::VerText(v, s))],
         1 => any::<u8>().prop_map(FrameSpec::Big),
         2 => (any::<u8>(), any::<u8>()).prop_map(|(a, b)| FrameSpec::Short(a, b)),
         2 => (any::<u8>(), any::<u8>()).prop_map(|(a, b)| FrameSpec::UnterminatedText(a, b)),
